@@ -1,10 +1,10 @@
 package rig
 
 import (
-	"os"
 	"errors"
 	"fmt"
 	"net"
+	"os"
 	"sync"
 	"syscall"
 	"time"
